@@ -466,7 +466,7 @@ func c04Exec(raw json.RawMessage, res *RunResult) {
 		return
 	}
 	dg := &Digest{}
-	ds.VerifSortedRange = true
+	ds.VerifSortedRange = false // Range is sorted by the library itself since the C06 fix; the real loop runs
 	m := &Meter{KeepLedger: true, Budget: 200_000}
 	m.Install()
 	defer Uninstall()
